@@ -4,6 +4,7 @@ import AlgoVerif.Proofs.C16Order
 import AlgoVerif.Proofs.C16Instances
 import AlgoVerif.Proofs.C16History
 import AlgoVerif.Proofs.C16Store
+import AlgoVerif.Proofs.C16HeapSim
 import AlgoVerif.Generated.C16
 /-!
 # C16 — property theorems (helper lemmas in `Proofs/C16*.lean`)
@@ -186,6 +187,8 @@ example : ∃ g', exUnordered.isSubset revShuffle exDesc () = .ok (FSet.subset e
 one.  (In the functional Model a value cannot be changed through another one; that later writes to
 either object do not reach the other in the Go code is validated on every explored run: the harness
 compares every register other than the destination with its snapshot after every operation.) -/
+/- (that later writes to a clone or to its source never reach the other object is
+`C16_heap_history_owns` / `C16_mutators_touch_only_their_object` below, on the heap machine) -/
 theorem C16_clone_refines {α : Type} {s : MSet α} (h : WF0 s) :
     s.clone = s ∧ WF0 s.cloneEmpty ∧ s.cloneEmpty.impl = s.impl ∧ s.cloneEmpty.members = FSet.empty :=
   ⟨rfl, wf0_cloneEmpty h, rfl, rfl⟩
@@ -342,6 +345,78 @@ example : ∃ t g' st', (HSet.mk exStable 0 3).difference revShuffle [HSet.mk ex
       · exact exStable_wf
       · exact exAsc_wf) () ⟨2, []⟩
   exact ⟨t, g', st', e, hf⟩
+
+/-! ## distinct set objects never share an array (the heap machine) -/
+
+/-- **Ownership, for every history.**  `Model/C16.lean` (namespace `Hp`) runs the same operations on set
+objects as Go has them: a slice header (`buf`, `len`; capacity = length of array `buf`) over a store of
+arrays, with `make`/`copy` allocating, `append` overwriting the object's own array when the capacity
+allows and moving to a new array otherwise, `Remove` shifting the tail down in place — so that two objects
+sharing an array *would* disturb each other.  Start with any file of freshly constructed sets (each owns
+its own empty array) and run any history — Add, Remove, RemoveAll, Clone, CloneEmpty, New, Union,
+Intersection, Difference, SelectMatch, PartitionMatch with any operands, and all the reading operations —
+with any lawful callbacks, any lawful shuffle and any growth rule: the heap machine never panics; in the
+final state **no two registers share an array** (`Hp.Own`: hence a later mutation of a clone, of a
+set-algebra result or of a source writes only that object's own array or a new one); and it is
+observationally equal to the functional register machine — same observations, and every register's view of
+the store is the functional machine's set value — which in turn refines the abstract finite sets
+(`C16_history_refines`).  So no operation ever changes what another object holds. -/
+theorem C16_heap_history_owns {α σ : Type} [DecidableEq α] {sh : Shuffle σ} (hsh : ShLaw sh) (grow : Nat → Nat)
+    (impls : List (Impl α)) (himpls : ∀ impl ∈ impls, ImplLaw (fun _ => True) Eq impl)
+    (ops : List (Op α)) (hops : ∀ op ∈ ops, op.Lawful) (g : σ) :
+    ∃ regs' H' g' obs,
+      Hp.runOps sh grow ops (Hp.initRegs 0 impls, Hp.initHeap impls, g) = .ok ((regs', H', g'), obs) ∧
+      Hp.Own H' regs' ∧
+      runOps sh ops (impls.map MSet.new, g) = .ok ((regs'.map (Hp.Obj.abs H'), g'), obs) ∧
+      Rel (regs'.map (Hp.Obj.abs H')) (srun (ops.map Op.abs) (impls.map fun _ => FSet.empty)).1 ∧
+      TraceRel obs (srun (ops.map Op.abs) (impls.map fun _ => FSet.empty)).2 := by
+  obtain ⟨R', g', obs, h₁, h₂, h₃⟩ := C16_history_refines hsh impls himpls ops hops g
+  have h₁' : runOps sh ops ((Hp.initRegs 0 impls).map (Hp.Obj.abs (Hp.initHeap impls)), g) = .ok ((R', g'), obs) := by
+    rw [Hp.init_abs]; exact h₁
+  obtain ⟨regs', H', e, hm, hown⟩ := Hp.runOps_sim sh grow ops (Hp.init_own impls) g h₁'
+  subst hm
+  exact ⟨regs', H', g', obs, e, hown, h₁, h₂, h₃⟩
+
+/-- **A mutator touches only its own object.**  In any state in which no two registers share an array,
+`Add(vals...)` and `Remove(vals...)` on the (valid) object in register `i` succeed on the heap machine, leave
+the object in its old array or in a newly allocated one, and every other register keeps its slice header
+valid, its view of the store — its members — unchanged, and an array different from the mutated object's;
+`RemoveAll` gives the object a new array and changes no existing one. -/
+theorem C16_mutators_touch_only_their_object {α : Type} (grow : Nat → Nat) {H : Hp.Heap α} {regs : List (Hp.Obj α)}
+    (hown : Hp.Own H regs) {i : Nat} {o : Hp.Obj α} (hi : regs[i]? = some o) (hw : WF0 (o.abs H)) (vs : List α) :
+    (∃ H' o', Hp.add grow H o vs = .ok (H', o') ∧ (o'.buf = o.buf ∨ H.size ≤ o'.buf) ∧
+      ∀ j p, j ≠ i → regs[j]? = some p → Hp.Valid H' p ∧ p.view H' = p.view H ∧ p.buf ≠ o'.buf) ∧
+    (∃ H' o', Hp.remove H o vs = .ok (H', o') ∧ (o'.buf = o.buf ∨ H.size ≤ o'.buf) ∧
+      ∀ j p, j ≠ i → regs[j]? = some p → Hp.Valid H' p ∧ p.view H' = p.view H ∧ p.buf ≠ o'.buf) ∧
+    (H.size ≤ (Hp.removeAll H o).2.buf ∧ Hp.Ext H (Hp.removeAll H o).1) := by
+  have hvo := hown.1 o (List.mem_of_getElem? hi)
+  have hne : ∀ j p, j ≠ i → regs[j]? = some p → Hp.Valid H p ∧ p.buf ≠ o.buf := by
+    intro j p hji hj
+    refine ⟨hown.1 p (List.mem_of_getElem? hj), ?_⟩
+    exact Hp.nodup_getElem?_ne hown.2 (by rw [List.getElem?_map, hj]; rfl) (by rw [List.getElem?_map, hi]; rfl) hji
+  refine ⟨?_, ?_, ?_⟩
+  · obtain ⟨s', hs, _⟩ := MSet.add_spec0 hw vs
+    obtain ⟨H', o', e, tr⟩ := Hp.add_trans grow vs hvo hs
+    exact ⟨H', o', e, tr.buf, fun j p hji hj => tr.other (hne j p hji hj).1 (hne j p hji hj).2⟩
+  · obtain ⟨s', hs, _⟩ := MSet.remove_spec0 hw vs
+    obtain ⟨H', o', e, tr⟩ := Hp.remove_trans vs hvo hs
+    exact ⟨H', o', e, tr.buf, fun j p hji hj => tr.other (hne j p hji hj).1 (hne j p hji hj).2⟩
+  · obtain ⟨_, _, _, hb, hext⟩ := Hp.fresh_spec H o.impl [] []
+    exact ⟨by simp only [Hp.removeAll]; rw [hb]; exact Nat.le_refl _, hext⟩
+
+example : ∃ regs' H' g' obs,
+    Hp.runOps revShuffle (fun n => n) [.add 0 [3, 1, 2], .clone 1 0, .remove 1 [1], .add 1 [9], .remove 0 [3], .union 2 0 [1]]
+      (Hp.initRegs 0 [Impl.stable Driver.eqI, .stable Driver.eqI, .sorted Driver.cmpSub],
+        Hp.initHeap [Impl.stable Driver.eqI, .stable Driver.eqI, .sorted Driver.cmpSub], ()) =
+        .ok ((regs', H', g'), obs) ∧ Hp.Own H' regs' := by
+  obtain ⟨r, H', g, o, h, hown, _⟩ := C16_heap_history_owns revShuffle_law (fun n => n)
+    [Impl.stable Driver.eqI, .stable Driver.eqI, .sorted Driver.cmpSub]
+    (by intro impl h; simp at h; rcases h with rfl | rfl
+        · exact eqI_law
+        · exact cmpSub_law)
+    [.add 0 [3, 1, 2], .clone 1 0, .remove 1 [1], .add 1 [9], .remove 0 [3], .union 2 0 [1]]
+    (by intro op h; simp at h; rcases h with rfl | rfl | rfl | rfl | rfl | rfl <;> trivial) ()
+  exact ⟨r, H', g, o, h, hown⟩
 
 /-! ## iteration order -/
 
